@@ -142,6 +142,8 @@ def judge(c, evs, part):
     W = c.get('weight')
     if W is not None:
         wit['weight'] = W
+    if c.get('toks0') is not None:
+        wit['exec_before'] = c['toks0']
     part.evaluations += 1
     if any(kd == 'CRASH' for kd, e in evs):
         return
@@ -170,8 +172,36 @@ def judge(c, evs, part):
     if pos >= len(st) or st[pos][0] != 'X':
         part.inconc('no-exec-event')
         return
+    pre_stack, pre_alt, pre_vf, pre_nop, pre_weight = list(it.stack), list(it.alt), list(it.vf), it.nop, it.weight
+    if c.get('toks0') is not None:
+        # an earlier exec (successful, failing or throwing) precedes the judged one: "at any point of a session" includes that point.
+        # The judged exec is compared with the reference executing on the state the tool itself reported after the earlier exec.
+        x0 = st[pos][1]
+        pos += 1
+        if pos >= len(st) or st[pos][0] != 'X':
+            part.inconc('no-second-exec-event')
+            return
+        if (x0.pc, x0.seq, x0.done, x0.cs) != (pre.pc, pre.seq, pre.done, pre.cs):
+            part.violation('exec-moves-script-position', wit)
+            return
+        pre = x0
+        size, ff = x0.vf
+        ff = min(ff, size)
+        pre_stack, pre_alt, pre_vf, pre_nop = list(x0.stack), list(x0.alt), [True] * ff + [False] * (size - ff), x0.nop
+        part.count('preceded_by_exec', 'failed' if not x0.ret else 'ok')
     x = st[pos][1]
     pos += 1
+    # what the tool printed for the judged exec: the output captured between the previous state event and this one
+    xtext = ''
+    seen = 0
+    for kd, e in evs:
+        if kd == 'O':
+            xtext += bytes.fromhex(e[1]).decode('latin1') if len(e) > 1 and e[1] != '-' else ''
+        elif kd in ('U', 'S', 'X'):
+            seen += 1
+            if seen == pos:
+                break
+            xtext = ''
     comp = [compile_token(t) for t in toks]
     part.count('exec_len', len(toks))
     if any(cpl is None for cpl in comp):
@@ -183,8 +213,8 @@ def judge(c, evs, part):
     lenient = any(l for b, l in comp)
     prog = b''.join(b for b, l in comp)
     # execute on the pre-state
-    ex = Interp(prog, list(it.stack), flags, sv, weight=it.weight, alt=list(it.alt), vf=list(it.vf))
-    ex.nop = it.nop
+    ex = Interp(prog, pre_stack, flags, sv, weight=pre_weight, alt=pre_alt, vf=pre_vf)
+    ex.nop = pre_nop
     res = None
     try:
         while not ex.at_end():
@@ -194,13 +224,9 @@ def judge(c, evs, part):
     except NumErr as e:
         res = 'NUM_' + e.kind
     xexc = x.exc
-    if not xexc:
-        # Instance::eval reports exceptions on stderr ("Error: exception thrown: ..."), captured as an O event before X
-        for kd, e in evs:
-            if kd == 'O':
-                txt = bytes.fromhex(e[1]).decode('latin1') if e[1] != '-' else ''
-                if 'exception thrown: ' in txt:
-                    xexc = txt.split('exception thrown: ')[-1].strip()
+    if not xexc and 'exception thrown: ' in xtext:
+        # Instance::eval reports exceptions on stderr ("Error: exception thrown: ..."), captured before the X event
+        xexc = xtext.split('exception thrown: ')[-1].strip()
     ek = exc_kind(xexc.replace('UNCAUGHT:', '')) if xexc else None
     if x.exc.startswith('UNCAUGHT:'):  # (the harness catches what would terminate the real process)
         part.violation('uncaught-exception-in-exec:' + (ek or '?'), wit)
@@ -216,6 +242,12 @@ def judge(c, evs, part):
                 return
             wit['ref'] = res
             part.violation('exec-succeeds-where-script-would-fail:' + res, wit)
+            return
+        if not res.startswith('NUM_') and 'exception thrown' in xtext:
+            # "reports the same error": a script error is not reported as somebody else's exception
+            wit['ref'] = res
+            wit['reported'] = xtext.strip()[-160:]
+            part.violation('exec-reports-an-exception-for-a-script-error', wit)
             return
         if res == 'ANY':     # (a real signature check without a transaction: fails, the code is not specified)
             pass
@@ -290,6 +322,8 @@ def worker(job):
             else:
                 c = gen_case(rng, i)
                 c['toks'] = gen_tokens(rng, c['sv'], 0)
+            if 'weight' not in c and rng.random() < 0.3:
+                c['toks0'] = rng.choice([['0000000000', 'OP_1ADD'], ['OP_0', 'OP_VERIFY'], ['ffffffff7f', 'OP_NEGATE'], ['0100', 'OP_NOT'], ['OP_1', 'OP_DROP'], ['OP_DEPTH'], ['OP_BOGUS'], gen_tokens(rng, c['sv'], 0)])
             if 'weight' not in c and rng.random() < 0.03:
                 c['toks'].insert(rng.randrange(len(c['toks']) + 1), rng.choice(['OP_BOGUS', 'zz', 'OP_', '12x', '0x12']))
             c['id'] = 'x%d.%d' % (idx, i)
@@ -300,6 +334,8 @@ def worker(job):
                 cmds.append('XD - - %d' % c['weight'])
             cmds.append('SU')
             cmds += ['S'] * c['k']
+            if c.get('toks0') is not None:
+                cmds.append('X ' + ' '.join((t.encode().hex() or '-') for t in c['toks0']))
             cmds.append('X ' + ' '.join((t.encode().hex() or '-') for t in c['toks']))
             cmds.append('CS')
             cases.append((c, cmds))
@@ -327,9 +363,9 @@ def main():
         for w in d['witnesses']:
             if not w or 'exec' not in w:
                 continue
-            c = dict(id='r', script=bytes.fromhex(w['script']), stack=[bytes.fromhex(x) for x in w['stack']], flags=w['flags'], sv=w['sv'], k=w['steps_before'], toks=w['exec'], weight=w.get('weight'))
+            c = dict(id='r', script=bytes.fromhex(w['script']), stack=[bytes.fromhex(x) for x in w['stack']], flags=w['flags'], sv=w['sv'], k=w['steps_before'], toks=w['exec'], weight=w.get('weight'), toks0=w.get('exec_before'))
             cmds = ['N r', 'SV %d' % c['sv'], 'FL %d' % c['flags'], 'SC %s' % hexs(c['script'])] + (['ST ' + items(c['stack'])] if c['stack'] else []) + (['XD - - %d' % c['weight']] if c['weight'] is not None else []) + ['SU'] + ['S'] * c['k'] + \
-                   ['X ' + ' '.join((t.encode().hex() or '-') for t in c['toks']), 'CS']
+                   (['X ' + ' '.join((t.encode().hex() or '-') for t in c['toks0'])] if c.get('toks0') is not None else []) + ['X ' + ' '.join((t.encode().hex() or '-') for t in c['toks']), 'CS']
             wd = scratch('c16r')
             events, crashes, hangs = run_harness_cases(bindir, [('r', cmds)], wd)
             cleanup_scratch(wd)
@@ -343,7 +379,7 @@ def main():
         rep.merge(r)
     return rep.finish(
         rule='session = model-steered script stepped to a random prefix (start, middle, last op, end); exec token lists of 1..8 tokens in exec\'s own grammar (opcode names with/without OP_, decimals, hex pushes, '
-             'invalid tokens at 3%); judged against the reference executing the compiled operations on the same pre-state, then the remaining script is stepped and compared. '
+             'invalid tokens at 3%; 30% of the sessions issue another exec first - failing, throwing or succeeding - and the judged exec starts from the state reported after it); judged against the reference executing the compiled operations on the same pre-state, then the remaining script is stepped and compared. '
              'every 8th case is a tapscript session with an explicit BIP342 validation-weight budget (0..1000) whose script and exec lists contain CHECKSIG/CHECKSIGVERIFY/CHECKSIGADD on non-empty signatures and unknown-type keys, so that exec\'d checks must consume the same budget as scripted ones. '
              'non-trivial = distinct (script, prefix, token list, flags, sigversion) whose exec result (state or required error) was compared',
         assumptions=['token -> operation mapping is exec\'s documented grammar (round-tripping decimal = number, even-length hex = data push, else opcode name); a data push that is not the minimal form may or may not trip MINIMALDATA',
